@@ -9,6 +9,11 @@ def cmd(pid, tier):
 
 # id -> (category, engine, technique, level text, level note, design ref)
 CHECKS = {
+ "C19": ("exploration", "ENUM",
+   "bounded-exhaustive enumeration of HTTP methods x content-type strings, and of all body chunkings (differential against the single-frame request) through the real tower service",
+   "10 methods x ~36k content-type values (six accepted spellings in all letter-case variants, near misses, missing, duplicated) with status and invocation log checked against the statement; 17 bodies x every split into <=3 (thorough 4) chunks x empty/blank chunk inserted at every boundary x Content-Length present/absent, each compared (status, body, handler log) with the single-frame request of the same bytes.",
+   "The TowerService is called directly with an explicit frame-sequence body; hyper's HTTP/1.1 framing is not in the loop. Bodies outside the 17 are not covered.",
+   "DESIGN.md §6 C19"),
  "C13": ("model_checking", "HIST",
    "explicit-state BFS over operation histories of the real RpcModule, canonical state keys, BTreeMap reference model compared on every transition",
    "Every transition re-executes history++[op] on a fresh real RpcModule (plus kept clones) and compares Ok/Err of the op, method_names() and the dispatch of calls to every name with a map reference; states are deduplicated by name->(kind, handler identity up to renaming); BFS to depth 7 (thorough 10) over a 49-op menu (sync/async/blocking/subscription/raw subscription/alias/merge/remove/clone/continue-from-clone over names a,b,c).",
